@@ -1576,7 +1576,7 @@ theorem cannot_be_handled (w : W) (c : Cli) (com : Com) (names : List Name) (nd 
 
 /-! ### start-up: `dev_initial_connect` -/
 
-theorem foldl_icStep_link (now con soe : Nat) (g : Nat) (hg : g ≠ 0) : ∀ (l : List (Bytes × Dev)) (acc : W × List String × List (Bytes × Dev)),
+theorem foldl_icStep_link (now : Nat) (con soe : List Nat) (g : Nat) (hg : g ≠ 0) : ∀ (l : List (Bytes × Dev)) (acc : W × List String × List (Bytes × Dev)),
     (∀ nd ∈ l, NoClientLogin nd.2) → (∀ nd ∈ acc.2.2, NoClientLogin nd.2) →
     totalQ g (l.foldl (Isolation.icStep now con soe) acc).2.2 = totalQ g acc.2.2 + totalQ g l ∧
     ∀ nd ∈ (l.foldl (Isolation.icStep now con soe) acc).2.2, NoClientLogin nd.2 := by
@@ -1603,7 +1603,7 @@ theorem foldl_icStep_link (now con soe : Nat) (g : Nat) (hg : g ≠ 0) : ∀ (l 
     omega
 
 /-- **`dev_initial_connect` keeps the invariant** (it only adds login actions, which belong to no client) -/
-theorem initialConnect_inv (w : W) (now con soe : Nat) (h : Inv w) : Inv (initialConnect w now con soe).1 := by
+theorem initialConnect_inv (w : W) (now : Nat) (con soe : List Nat) (h : Inv w) : Inv (initialConnect w now con soe).1 := by
   refine ⟨Isolation.initialConnect_iso w now con soe h.1, ?_⟩
   rw [Isolation.initialConnect_eq]
   obtain ⟨h1, _, h3, _⟩ := Isolation.foldl_icStep (fun _ _ => True) trivial now con soe w.devs (w, [], [])
